@@ -29,9 +29,8 @@ tvars == <<vars, case, l>>
 Ev == Rec[case].ev
 E  == Ev[l]
 
-\* accept value wanted for a key: the independent computation logged with the handshake
-HsOf(k) == CHOOSE c \in 1..Len(Rec) : Rec[c].ev[1].haskey /\ Rec[c].ev[1].key = k
-TraceAcceptOf(k) == Rec[HsOf(k)].ev[1].want
+\* accept value wanted for a key: the independent computation logged with this connection's handshake
+TraceAcceptOf(k) == IF Ev[1].haskey /\ Ev[1].key = k THEN Ev[1].want ELSE NoAccept
 
 ToSet(s) == { s[i] : i \in 1..Len(s) }
 
@@ -88,8 +87,8 @@ Track == TLCSet(case, IF TLCGet(case) > l THEN TLCGet(case) ELSE l)
 Rejected == { c \in 1..Len(Rec) : TLCGet(c) # Len(Rec[c].ev) + 1 }
 Accepted ==
   \/ Rejected = {}
-  \/ /\ PrintT(ToJson([rejected |-> [c \in Rejected |->
-                         [c |-> Rec[c].c, at |-> TLCGet(c),
-                          ev |-> IF TLCGet(c) <= Len(Rec[c].ev) THEN ToJson(Rec[c].ev[TLCGet(c)]) ELSE "end"]]]))
+  \/ /\ PrintT(ToJson([rejected |-> { [c |-> Rec[c].c, at |-> TLCGet(c),
+                                         ev |-> IF TLCGet(c) <= Len(Rec[c].ev) THEN ToJson(Rec[c].ev[TLCGet(c)]) ELSE "end"]
+                                        : c \in Rejected }]))
      /\ FALSE
 =============================================================================
